@@ -14,6 +14,7 @@ extern "C" void __gcov_dump(void);  // coverage build only (check/coverage.py)
 #include <cstdlib>
 #include <cstring>
 #include <sys/resource.h>
+#include <sys/time.h>
 #include <sys/wait.h>
 #include <unistd.h>
 
@@ -122,6 +123,7 @@ struct OpI {
 struct Scenario {
   std::string id;
   int nvars = 4;
+  int promote = 0;  // a thread calls GetThreadID while it holds a promoted (locked) copy of its own heartbeat
   int decoy = 0;  // every thread also holds a guard of a second, unrelated EpochManager while it works on the first
   std::vector<std::vector<OpI>> progs;
   std::vector<std::string> raw_t;
@@ -174,6 +176,7 @@ struct World {
   std::vector<EpochGuard> decoy_guards;
   std::vector<char> decoy_taken;
   bool use_decoy = false;
+  bool use_promote = false;
   std::vector<EpochGuard> guards;
   std::vector<const std::vector<size_t> *> lists;
   // ghosts
@@ -189,6 +192,7 @@ struct World {
     vsched::set_node_naming(1 << 30, 0);
     vshim::prepare_thread_ids(static_cast<int>(kN));
     use_decoy = sc.decoy != 0;
+    use_promote = sc.promote != 0;
     if (use_decoy) {
       const int q = vsched::quiet_enter();
       decoy = new EpochManager{};  // before allocation tracking starts: its list nodes are not counted
@@ -234,6 +238,10 @@ struct World {
       vshim::set_probe_start(static_cast<int>(o.a));
       tok(rk + "0");
     } else if (o.name == "gid") {
+      // promote=1: a client that looked at its own heartbeat (weak_ptr::lock) still holds the promoted copy while it
+      // asks for its ID again; the copy is a plain std::shared_ptr (no events) and is dropped when this operation ends,
+      // never as the last owner in a correct library (the thread-local HeartBeater owns the token until thread exit)
+      auto promoted = use_promote ? my_hb[tid].lock() : decltype(my_hb[tid].lock()){};
       const auto id = IDManager::GetThreadID();
       std::string extra;
       if (id >= kN) {
@@ -408,6 +416,7 @@ main()
         if (kv.size() != 2) continue;
         if (kv[0] == "nvars") sc.nvars = std::stoi(kv[1]);
         if (kv[0] == "decoy") sc.decoy = std::stoi(kv[1]);
+        if (kv[0] == "promote") sc.promote = std::stoi(kv[1]);
         if (kv[0] == "policy") sc.opt.policy = std::stoi(kv[1]);
         if (kv[0] == "seed") sc.opt.seed = std::stoull(kv[1]);
         if (kv[0] == "max_steps") sc.opt.max_steps = std::stoi(kv[1]);
@@ -451,10 +460,16 @@ main()
         // (e.g. a loop over plain memory that does not terminate) cannot be preempted by the baton scheduler
         // The guard is on CPU time: a non-terminating local loop burns a core, a thread that merely waits for its turn on
         // a loaded machine does not.  The wall-clock alarm is a back-stop that only makes the scenario be skipped.
+        // It counts user-mode time only (ITIMER_VIRTUAL): the baton hand-over between many threads costs system time,
+        // which says nothing about the code under test.  Total CPU time and wall-clock time are back-stops that only
+        // make the scenario be skipped.
         {
+          struct itimerval it {};
+          it.it_value.tv_sec = 20;
+          setitimer(ITIMER_VIRTUAL, &it, nullptr);
           struct rlimit rl;
-          rl.rlim_cur = 20;
-          rl.rlim_max = 25;
+          rl.rlim_cur = 300;
+          rl.rlim_max = 305;
           setrlimit(RLIMIT_CPU, &rl);
         }
         alarm(std::getenv("VERIF_ALARM") ? static_cast<unsigned>(std::atoi(std::getenv("VERIF_ALARM"))) : 120U);
@@ -466,11 +481,11 @@ main()
       }
       int st = 0;
       waitpid(pid, &st, 0);
-      if (WIFSIGNALED(st) && (WTERMSIG(st) == SIGXCPU || WTERMSIG(st) == SIGKILL)) {
+      if (WIFSIGNALED(st) && WTERMSIG(st) == SIGVTALRM) {
         ++hangs;
         std::printf("END hang\n");
         std::fflush(stdout);
-      } else if (WIFSIGNALED(st) && WTERMSIG(st) == SIGALRM) {
+      } else if (WIFSIGNALED(st) && (WTERMSIG(st) == SIGALRM || WTERMSIG(st) == SIGXCPU || WTERMSIG(st) == SIGKILL)) {
         std::printf("END skipped\n");  // wall-clock back-stop on a loaded machine: not a verdict
         std::fflush(stdout);
       } else if (!(WIFEXITED(st) && WEXITSTATUS(st) == 0)) {
